@@ -37,7 +37,11 @@ func c04SockStream(r *core.Rand, t *svc.Term, n int, short bool) (frames [][]byt
 			body = []byte{0, 1, 0, 0, 28}
 			body = append(body, c04Body(r, 2, 28)...)
 		}
-		frames = append(frames, t.Frame(id, serial, body))
+		if i%5 == 3 {
+			frames = append(frames, attrFrame(t.V2019, t.BCD, id, serial, body, core.Pick(r, []byte{0x04, 0x08, 0x10, 0x1c, 0x80})))
+		} else {
+			frames = append(frames, t.Frame(id, serial, body))
+		}
 		exp = append(exp, ref.ExpectedReply(id, serial, body, t.V2019, t.Phone))
 	}
 	return
